@@ -1,4 +1,5 @@
-(* C12 driver: scenario = <time> <n> <arg>*n <nopts> <opt>*  ; see checks/C12.py for the annotation grammar *)
+(* C12 driver: scenario = <time> <n> <arg>*n <nopts> <opt>*  ; see checks/C12.py for the annotation grammar;
+   observation = parse part (:rej .. | :ok ..) followed, for an accepted vector, by the applied part (:skip | :app ..) *)
 let fk = function 0 -> FContains | 1 -> FStrict | 2 -> FExclude | 3 -> FExcludeStrict | _ -> raise (Bad "filter kind")
 let optdigits c = optbytes_tok (next c)
 let opt c =
@@ -30,13 +31,23 @@ let pobs = function
                           pn c.c_seed; pn c.c_repeat; (match c.c_out with OEclipse -> "0" | OJUnit -> "1" | OTeamCity -> "2"); pbytes c.c_pkg]
                          @ pfilters c.c_gf @ pfilters c.c_nf @ List.map pbool sel)
   | OUnknown -> ":unknown-dispatch-rule"
+(* the applied part:  :skip | :app <nouts> (kind pkg level colour)* <text> <nreps> (level colour <n> seed* <n> started* <n> ran* <n> sep* )* *)
+let pkind = function OEclipse -> "0" | OJUnit -> "1" | OTeamCity -> "2"
+let pnlist l = String.concat " " (Printf.sprintf "%x" (List.length l) :: List.map pn l)
+let papplied = function
+  | ASkipped -> ":skip"
+  | AApplied (outs, text, reps) ->
+      String.concat " " ([":app"; Printf.sprintf "%x" (List.length outs)]
+                         @ List.concat_map (fun o -> [pkind o.o_kind; pbytes o.o_pkg; pn o.o_level; pbool o.o_color]) outs
+                         @ [pbytes text; Printf.sprintf "%x" (List.length reps)]
+                         @ List.concat_map (fun r -> [pn r.r_level; pbool r.r_color; pnlist r.r_seeds; pnlist r.r_started; pnlist r.r_ran; pnlist r.r_sep]) reps)
+let pxobs x = match x.x_applied with None -> pobs x.x_parse | Some a -> pobs x.x_parse ^ " " ^ papplied a
 let run_line ts =
   let (tm, argv, _) = scenario ts in
   if not (valid tm argv) then raise (Bad "scenario is not valid (NUL/non-byte in an argument, or more than 9 digits handed to AtoI)")
-  else pobs (run tm argv)
+  else pxobs (xrun tm argv)
 let filters c = counted c (fun c -> let p = bytes_tok (next c) in let s = bool_tok (next c) in { f_pat = p; f_strict = s; f_invert = bool_tok (next c) })
-let obs_of os =
-  let c = { rest = os } in
+let obs_of_cur c =
   match next c with
   | ":rej" -> let h = bool_tok (next c) in let r = n_tok (next c) in
               ORejected (h, r, (match next c with "0" -> PNothing | "1" -> PUsage | "2" -> PHelp | _ -> POther))
@@ -49,14 +60,33 @@ let obs_of os =
       let pkg = bytes_tok (next c) in
       let gf = filters c in let nf = filters c in
       let sel = many c 14 (fun c -> bool_tok (next c)) in
-      if not (at_end c) then raise (Bad "trailing tokens") else
       OAccepted ({ c_verbose = v; c_veryverbose = vv; c_color = co; c_sep = p; c_listg = lg; c_listn = ln; c_listl = ll; c_runign = ri;
                    c_rev = rv; c_crash = f; c_rethrow = re; c_shuf = sh; c_seed = seed; c_repeat = rep; c_out = out; c_pkg = pkg;
                    c_gf = gf; c_nf = nf }, sel)
   | _ -> OUnknown
+let applied_of c =
+  let nlist c = counted c (fun c -> n_tok (next c)) in
+  if at_end c then None else
+  match next c with
+  | ":skip" -> Some ASkipped
+  | ":app" ->
+      let outs = counted c (fun c ->
+        let k = (match next c with "0" -> OEclipse | "1" -> OJUnit | "2" -> OTeamCity | _ -> raise (Bad "output kind")) in
+        let p = bytes_tok (next c) in let l = n_tok (next c) in { o_kind = k; o_pkg = p; o_level = l; o_color = bool_tok (next c) }) in
+      let text = bytes_tok (next c) in
+      let reps = counted c (fun c ->
+        let l = n_tok (next c) in let co = bool_tok (next c) in let seeds = nlist c in let st = nlist c in let ran = nlist c in
+        { r_level = l; r_color = co; r_seeds = seeds; r_started = st; r_ran = ran; r_sep = nlist c }) in
+      Some (AApplied (outs, text, reps))
+  | t -> raise (Bad ("applied part " ^ t))
+let xobs_of os =
+  let c = { rest = os } in
+  let o = obs_of_cur c in
+  let a = applied_of c in
+  if not (at_end c) then raise (Bad "trailing tokens") else { x_parse = o; x_applied = a }
 let spec_line ts os =
   let (tm, argv, opts) = scenario ts in
   if not (valid tm argv) then true else
-  match (try Some (obs_of os) with _ -> None) with
-  | Some o -> spec tm argv opts o
+  match (try Some (xobs_of os) with _ -> None) with
+  | Some x -> xspec tm argv opts x
   | None -> false
